@@ -23,7 +23,16 @@ def run_cases(ctx, procs, oracle, n, salt='main', gen_hook=None):
 
 def one_case(ctx, proc, a, desc, rows, oracle, pending):
     rep = ctx.report
-    real = S.run_real([S.PROCS[proc].real(copy.deepcopy(a))], desc, rows)
+    step_obj = S.PROCS[proc].real(copy.deepcopy(a))
+    real = S.run_real([step_obj], desc, rows)
+    # every fourth case: the same step object serves a second flow (fresh copy of the package) identically
+    ctx._reuse_tick = getattr(ctx, '_reuse_tick', 0) + 1
+    if ctx._reuse_tick % 4 == 0:
+        again = S.run_real([step_obj], desc, rows)
+        if S.norm_result(again) != S.norm_result(real):
+            rep.fail('reuse:%s:second-run-differs' % proc, {'proc': proc, 'args': S.jsonable_args(a), 'desc': desc,
+                                                           'rows': canon._plain(rows)},
+                     {'first': str(S.norm_result(real))[:500], 'second': str(S.norm_result(again))[:500]})
     case = {'proc': proc, 'args': S.jsonable_args(a), 'desc': desc, 'rows': canon._plain(rows)}
     nontrivial = 'ok' in real and any(len(r) for r in rows)
     rep.case(proc, case, nontrivial=nontrivial)
